@@ -223,6 +223,9 @@ def rule_scan_reduce(ctx, facts, prefix="C01-R5"):
     if not ctx.check(len(maxes) == 1, prefix, "anchor|max", "one max() fold in reduce (%d)" % len(maxes), r.where()):
         return
     mx = maxes[0]
+    if mx.matches(r"Iterator>::max$|iter::Iterator::max$"):
+        _scan_reduce_iterator_form(ctx, facts, r, prov, mx, prefix)
+        return
     acc = _acc_local(r, mx)
     cyc = cfg.cyclic_blocks(r)
     ctx.check(mx.bb in cyc, prefix, "fold-in-loop", "the max() fold runs inside the loop over the map results", mx.where())
@@ -290,6 +293,41 @@ def rule_scan_reduce(ctx, facts, prefix="C01-R5"):
             somes = [st for st in rets if st["rv"]["k"] == "agg" and st["rv"].get("variant") == "Some"]
             resid = [c for c in fr if c.bb in region]
             ctx.check(not somes and (resid or rets), prefix, "overflow-arm", "an exhausted range makes reduce return None", r.where(bb))
+
+
+def _scan_reduce_iterator_form(ctx, facts, r, prov, mx, prefix):
+    """reduce written as  let m = results.iter().map(|r| r.0).max().unwrap_or(0);  …checked_add(m, 1)…"""
+    from ..common import iterator_fold, call_chain
+    uo = [c for c in r.calls_to(r"Option::<u32>::unwrap_or$|::unwrap_or$") if [x.bb for x in call_chain(r, c.args[0])[0][:1]] == [mx.bb]]
+    if not ctx.check(len(uo) == 1, prefix, "fold-init", "the maximum of an empty list is taken as 0 (`.max().unwrap_or(0)`)", mx.where()):
+        return
+    itf = iterator_fold(facts, r, {"copy": {"l": uo[0].dst["l"], "p": []}})
+    good = itf is not None and itf["kind"] == "max" and itf["field"] == "0" and itf["root"] == ("param", 1) and itf["init"] == 0
+    ctx.check(good, prefix, "fold-operand", "maximum = map_results.iter().map(|r| r.0).max().unwrap_or(0): over `.0` of every element (%s)" % (itf,), mx.where())
+    acc = uo[0].dst["l"]
+    n_some = 0
+    for (bb, st) in return_values(r):
+        rv = st["rv"]
+        if rv["k"] == "agg" and rv.get("variant") == "Some":
+            n_some += 1
+            t = single_def(r, op_place(rv["ops"][0])["l"])
+            first = t[2]["rv"]["ops"][0] if t and t[1] == "assign" and t[2]["rv"]["k"] == "agg" else None
+            if first is None:
+                ctx.bad(prefix, "ret-shape", "unexpected return shape", r.where(bb))
+                continue
+            c = op_const(first)
+            if c is not None:
+                ctx.check(c.get("int") == 1, prefix, "start-const", "the empty-tree start value is 1 (found %s)" % c.get("int"), r.where(bb))
+                continue
+            org = prov.origins_op(first)
+            calls = [o[1] for o in org if o[0] == "call"]
+            ok = bool(calls) and len(calls) == len(org) and all(x.matches(r"::checked_add$") for x in calls)
+            ctx.check(ok, prefix, "next-not-checked", "max+1 is computed with checked_add", r.where(bb))
+            for x in calls:
+                a0 = op_place(x.args[0])
+                one = op_const(x.args[1])
+                ctx.check(a0 is not None and _same_acc(r, a0["l"], acc) and one is not None and one.get("int") == 1, prefix, "next-is-max-plus-1", "the value returned is checked (maximum + 1)", x.where())
+    ctx.check(n_some >= 1, prefix, "no-some", "reduce returns Some((next, missing))", r.where())
 
 
 def _acc_local(body, mx):
